@@ -23,6 +23,36 @@ from .astutil import stmt_defs, walk_local
 Edge = Tuple[int, Optional[str]]
 
 
+def free_loads(expr: ast.AST, bound: Optional[Set[str]] = None) -> Set[str]:
+    """ names loaded by an expression, excluding comprehension / lambda variables bound inside it """
+    bound = set(bound or ())
+    result: Set[str] = set()
+    if isinstance(expr, ast.Name):
+        if isinstance(expr.ctx, ast.Load) and expr.id not in bound:
+            result.add(expr.id)
+        return result
+    if isinstance(expr, (ast.ListComp, ast.SetComp, ast.GeneratorExp, ast.DictComp)):
+        inner = set(bound)
+        for gen in expr.generators:
+            result |= free_loads(gen.iter, inner)
+            inner |= {n.id for n in ast.walk(gen.target) if isinstance(n, ast.Name)}
+            for cond in gen.ifs:
+                result |= free_loads(cond, inner)
+        if isinstance(expr, ast.DictComp):
+            result |= free_loads(expr.key, inner) | free_loads(expr.value, inner)
+        else:
+            result |= free_loads(expr.elt, inner)
+        return result
+    if isinstance(expr, ast.Lambda):
+        inner = set(bound) | {a.arg for a in expr.args.args + expr.args.kwonlyargs + expr.args.posonlyargs}
+        return free_loads(expr.body, inner)
+    if isinstance(expr, (ast.FunctionDef, ast.AsyncFunctionDef, ast.ClassDef)):
+        return result
+    for child in ast.iter_child_nodes(expr):
+        result |= free_loads(child, bound)
+    return result
+
+
 class Node:
     __slots__ = ("id", "kind", "ast", "copy")
 
@@ -294,9 +324,7 @@ class CFG:
     def uses_at(self, nid: int) -> Set[str]:
         result: Set[str] = set()
         for expr in self.header_expr_nodes(nid):
-            for cur in [expr] + list(walk_local(expr)):
-                if isinstance(cur, ast.Name) and isinstance(cur.ctx, ast.Load):
-                    result.add(cur.id)
+            result |= free_loads(expr)
         return result
 
     def reach(self, start: Iterable[int], avoid: Iterable[int] = (), labels_excluded: Iterable[str] = (),
